@@ -2,6 +2,7 @@ import GeosModel.Proofs.WKB.Depth
 import GeosModel.Proofs.Readers.WKBAlloc
 import GeosModel.Proofs.Readers.WKTSafe
 import GeosModel.Proofs.Readers.WKTDepth
+import GeosModel.Model.Readers.Cxx
 /-!
 # C11 — readers never crash, hang or touch memory out of bounds: what is PROVED, and about what
 
@@ -291,3 +292,93 @@ example : WFT (.lineString ⟨false, false, [⟨0, 0, nanBits, nanBits⟩]⟩) =
 example : WFT (.compoundCurve [.lineString ⟨false, false, []⟩, .lineString ⟨false, false, [⟨0, 0, nanBits, nanBits⟩, ⟨1, 1, nanBits, nanBits⟩]⟩]) = false := by decide
 
 end GeosModel.C11.WKT
+
+/-! ## Part 3 — the stream object of the regenerated guards (`Model/Readers/Cxx.lean`, tied to the source by `Props/C11Gen.lean`) -/
+namespace GeosModel.C11.WKB
+open GeosModel GeosModel.WKB
+
+/-- **bounded primitive reads**: a successful `readByte` / `readUnsigned` / `readInt` / `readDouble` on the stream object consumed
+exactly 1 / 4 / 4 / 8 bytes that were there, and left the byte order alone -/
+theorem dis_reads_consume (d d' : Dis) :
+    (∀ v, d.readByte = .ok (v, d') → d'.buf.length + 1 = d.buf.length ∧ d'.order = d.order) ∧
+    (∀ v, d.readUnsigned = .ok (v, d') → d'.buf.length + 4 = d.buf.length ∧ d'.order = d.order) ∧
+    (∀ v, d.readInt = .ok (v, d') → d'.buf.length + 4 = d.buf.length ∧ d'.order = d.order) ∧
+    (∀ v, d.readDouble = .ok (v, d') → d'.buf.length + 8 = d.buf.length ∧ d'.order = d.order) := by
+  rcases d with ⟨o, bs⟩
+  refine ⟨?_, ?_, ?_, ?_⟩
+  · intro v h
+    rcases bs with _ | ⟨a, r⟩ <;> simp [Dis.readByte, GeosModel.WKB.readByte] at h
+    obtain ⟨_, rfl⟩ := h; simp
+  · intro v h
+    rcases bs with _ | ⟨a, _ | ⟨b, _ | ⟨c, _ | ⟨e, r⟩⟩⟩⟩ <;> simp [Dis.readUnsigned, readU32] at h
+    obtain ⟨_, rfl⟩ := h; simp
+  · intro v h
+    rcases bs with _ | ⟨a, _ | ⟨b, _ | ⟨c, _ | ⟨e, r⟩⟩⟩⟩ <;> simp [Dis.readInt, readU32] at h
+    obtain ⟨_, rfl⟩ := h; simp
+  · intro v h
+    rcases bs with _ | ⟨a, _ | ⟨b, _ | ⟨c, _ | ⟨e, _ | ⟨f, _ | ⟨g, _ | ⟨i, _ | ⟨j, r⟩⟩⟩⟩⟩⟩⟩⟩ <;> simp [Dis.readDouble, readU64] at h
+    obtain ⟨_, rfl⟩ := h; simp
+
+/-- **every header costs at least five bytes** (nine with an SRID): the fact the depth bound `depth_le` (`length / 5 + 1`) rests on,
+for the header function the regenerated `readGeometry` prefix is proved equal to (`C11Gen.gen_header_eq`) -/
+theorem header_consumes (d d' : Dis) (r : Nat × Int) (z m : Bool) (h : readHeaderRaw d = .ok (r, z, m, d')) :
+    d'.buf.length + 5 ≤ d.buf.length := by
+  unfold readHeaderRaw at h
+  cases h1 : d.readByte with
+  | error e => simp [h1] at h
+  | ok v1 =>
+    rcases v1 with ⟨b, d1⟩
+    have c1 := (dis_reads_consume d d1).1 b h1
+    simp only [h1] at h
+    generalize hd2 : (if b = 1 then d1.setOrder 1 else if b = 0 then d1.setOrder 0 else d1) = d2 at h
+    have l2 : d2.buf.length = d1.buf.length := by
+      rw [← hd2]; split
+      · rfl
+      · split <;> rfl
+    cases h2 : d2.readUnsigned with
+    | error e => simp [h2] at h
+    | ok v2 =>
+      rcases v2 with ⟨t, d3⟩
+      have c2 := (dis_reads_consume d2 d3).2.1 t h2
+      simp only [h2] at h
+      rcases hdt : decodeType t with ⟨gt, zz, mm, sr⟩
+      rw [hdt] at h
+      cases sr
+      · simp at h; obtain ⟨_, _, _, rfl⟩ := h; omega
+      · simp only at h
+        cases h3 : d3.readInt with
+        | error e => simp [h3] at h
+        | ok v3 =>
+          rcases v3 with ⟨sv, d4⟩
+          have c3 := (dis_reads_consume d3 d4).2.2.1 sv h3
+          simp [h3] at h; obtain ⟨_, _, _, rfl⟩ := h; omega
+
+/-- **the child loop pushes exactly the claimed number of children or fails**, and never hands back more bytes than it got
+(when the child reader does not) -/
+theorem readManyD_length {α : Type} (f : Dis → Except String (α × Dis)) (n : Nat) (d d' : Dis) (xs : List α)
+    (hf : ∀ d a d', f d = .ok (a, d') → d'.buf.length ≤ d.buf.length) (h : readManyD f n d = .ok (xs, d')) :
+    xs.length = n ∧ d'.buf.length ≤ d.buf.length := by
+  induction n generalizing d xs with
+  | zero => simp [readManyD] at h; obtain ⟨rfl, rfl⟩ := h; simp
+  | succ n ih =>
+    simp only [readManyD] at h
+    cases h1 : f d with
+    | error e => simp [h1] at h
+    | ok v =>
+      rcases v with ⟨a, d1⟩
+      simp only [h1] at h
+      cases h2 : readManyD f n d1 with
+      | error e => simp [h2] at h
+      | ok w =>
+        rcases w with ⟨as, d2⟩
+        simp [h2] at h
+        obtain ⟨rfl, rfl⟩ := h
+        have := ih d1 as h2
+        have := hf d a d1 h1
+        simp; omega
+
+/-! non-vacuity: a five-byte header (little endian, POINT) is accepted and leaves nothing; two children are read from ten bytes -/
+example : readHeaderRaw ⟨1, [1, 1, 0, 0, 0]⟩ = .ok ((1, 0), false, false, ⟨1, []⟩) := by rfl
+example : readManyD (fun d => d.readByte) 2 ⟨1, [7, 8, 9]⟩ = .ok ([7, 8], ⟨1, [9]⟩) := by rfl
+
+end GeosModel.C11.WKB
